@@ -633,7 +633,7 @@ def oracle_matcher(rng, n, stats):
         C, clk, crk = gen_candset(rng, L, R, lk, rk, stats, la=la)
         if use_tok:
             name, base = rng.choice([('jaccard', Jaccard().get_raw_score), ('overlap', lambda a, b: len(set(a) & set(b))), ('dice', Dice().get_raw_score)])
-        elif L is not R and rng.random() < 0.25:
+        elif L is not R and lk != la and rk != ra and rng.random() < 0.25:
             # without a tokenizer the match attributes need not be strings: years compared by |a - b|
             L, R = L.copy(), R.copy()
             if rng.random() < 0.5:
